@@ -287,6 +287,8 @@ class DynJetFunction:
                 else:
                     use = list(range(self.d))
                 key = (comp, tp.key(), tuple(bases[k].key() for k in use), tuple(pb.key() for pb, _ in pvals))
+                if not self.ydep and getattr(self, 'per_row', False):
+                    key = key + (('row', b),)      # state-independent, but each batch row may have its own value (e.g. a per-sample noise scale)
                 pid = self._point(key)
                 ylists = [pows[k] if k in use else pows[k][:1] for k in range(self.d)]
                 tot = Poly()
